@@ -636,3 +636,13 @@ class Aa55Responder:
 
     def garbage(self, data):
         return rw.AA55_RSP_HDR + data[4:5] + bytes((data[5] | 0x80,)) + b"\x04garb\x00\x01"  # right size, wrong checksum
+
+
+class MultiPeer:
+    """Several independent peers behind one World, selected by the remote host of the transport."""
+
+    def __init__(self, peers: dict):
+        self.peers = peers
+
+    def on_transmission(self, world, tr, index, data):
+        return self.peers[tr._addr[0]].on_transmission(world, tr, index, data)
